@@ -621,6 +621,9 @@ def _canon_factors(n, single, dvar, depth=0):
         return ['item_length'], []
     if isinstance(n, ast.Attribute) and n.attr == 'length' and isinstance(n.value, ast.Subscript):
         return ['item_length'], []
+    if isinstance(n, ast.Call) and isinstance(n.func, ast.Name) and n.func.id == 'getattr' and len(n.args) == 3 and isinstance(n.args[1], ast.Constant) \
+            and n.args[1].value == 'length' and isinstance(n.args[2], ast.Constant):
+        return ['item_length'], []          # getattr(x, 'length', d)  ==  x.length if hasattr(x, 'length') else d
     if isinstance(n, ast.BinOp) and isinstance(n.op, ast.Mult):
         a, b = _canon_factors(n.left, single, dvar, depth), _canon_factors(n.right, single, dvar, depth)
         return sorted(a[0] + b[0]), sorted(a[1] + b[1])
@@ -662,6 +665,13 @@ def check_stall_delay_conversion(p, r):
                 single = {k: v for k, v in single.items() if counts.get(k) == 1}
                 convs = [n for n in walk_no_nested(fi.node) if isinstance(n, ast.Assign) and len(n.targets) == 1 and isinstance(n.targets[0], ast.Name)
                          and n.targets[0].id == dvar and isinstance(n.value, ast.BinOp) and isinstance(n.value.op, (ast.Mult, ast.Div))]
+                # `delay *= f` / `delay /= f` is the same conversion
+                for n in walk_no_nested(fi.node):
+                    if isinstance(n, ast.AugAssign) and isinstance(n.target, ast.Name) and n.target.id == dvar and isinstance(n.op, (ast.Mult, ast.Div)):
+                        virt = ast.copy_location(ast.Assign(targets=[ast.Name(id=dvar, ctx=ast.Store())],
+                                                            value=ast.BinOp(left=ast.Name(id=dvar, ctx=ast.Load()), op=n.op, right=n.value)), n)
+                        ast.fix_missing_locations(virt)
+                        convs.append(virt)
                 for c in convs:
                     num, den = _canon_factors(c.value, {k: v for k, v in single.items() if k != dvar}, dvar)
                     # the slot count itself: the variable being converted, or the single other non-length factor
